@@ -78,9 +78,25 @@ def coerce(st, v, kind):
         if isinstance(v, VTuple):
             return VSeq.of(kind.elem, [coerce(st, x, kind.elem) for x in v.items])
         return v
+    if isinstance(kind, TotalMapOf):
+        if isinstance(v, VEmptyDefault):
+            if v.factory == "set" and isinstance(kind.val, SetOf):
+                return VTotalMap(kind.key, kind.val, z3.K(kind.key.sort(), VSet.empty(kind.val.elem).t))
+            if v.factory == "int" and kind.val == INT:
+                return VTotalMap(kind.key, kind.val, z3.K(kind.key.sort(), z3.IntVal(0)))
+            raise Unsupported(f"defaultdict({v.factory}) as {kind.name}")
+        if isinstance(v, VMap) and v.default is not None:
+            k = z3.Const("k!tm", kind.key.sort())
+            return VTotalMap(kind.key, kind.val, z3.Lambda([k], z3.If(v.dom[k], v.valarr[k], v.default.t)))
+        return v
     if isinstance(kind, MapOf):
         if isinstance(v, VEmptyMap):
             return v.to(kind.key, kind.val)
+        if isinstance(v, VEmptyDefault):
+            d = {"set": lambda: VSet.empty(kind.val.elem), "int": lambda: VInt(0)}[v.factory]()
+            m = VEmptyMap().to(kind.key, kind.val)
+            m.default = d
+            return m
         return v
     if isinstance(v, VOpt) and not isinstance(kind, Opt) and v.kind.inner == kind:
         return v.get()          # callers guard None-ness on the path (contains/equal handle None themselves)
@@ -295,6 +311,10 @@ def contains(st, container, x):
             return z3.And(z3.Not(x.is_none()), contains(st, c, x.get()))
     if isinstance(c, (VEmptySet, VEmptySeq, VEmptyMap)):
         return z3.BoolVal(False)
+    if isinstance(c, VAtom) and isinstance(c.kind, Abstract) and "__contains__" in c.kind.attrs:
+        ek = c.kind.attrs["__contains__"]
+        f = z3.Function(f"{c.kind.name}.__contains__", c.kind.sort(), ek.sort(), z3.BoolSort())
+        return f(c.t, coerce(st, x, ek).t)
     if isinstance(c, VSet):
         return c.contains(coerce(st, x, c.elem))
     if isinstance(c, VMap):
